@@ -561,6 +561,9 @@ func main() {
 	if c.ecoPath == "" || c.mathPath == "" || c.apiPath == "" {
 		die("cannot determine the import paths of x/ecocredit, types/math and api below %s", *repo)
 	}
+	if tp, err := w.Import("time"); err != nil || tp.Scope().Lookup("Time") == nil {
+		die("cannot type-check package time from GOROOT (%s): time comparisons could not be recognised", astx.GoRoot())
+	}
 	mp := w.CheckDir(filepath.Join(*repo, "types", "math"))
 	decObj, _ := mp.Types.Scope().Lookup("Dec").(*types.TypeName)
 	if decObj == nil {
